@@ -26,7 +26,13 @@ pub fn build(descs: &[FnDesc], symbols: &BTreeMap<String, Value>, rules: &[(Stri
         b = b.with_rule(Rule::new(name.clone(), BTreeMap::new(), e.clone())).expect("fixture rule names are unique");
     }
     for f in make_fns(descs, &log, &plan) {
-        b = b.with_function(f).expect("fixture function names are valid");
+        // functions named "dc…" are registered through a wrapper that keeps the trait's default cacheable()
+        b = if f.desc.name.starts_with("dc") {
+            assert!(f.desc.cacheable, "a default-cacheable function must be described as cacheable");
+            b.with_function(crate::instr::DefaultCacheable(f)).expect("fixture function names are valid")
+        } else {
+            b.with_function(f).expect("fixture function names are valid")
+        };
     }
     for (k, v) in symbols {
         b = b.with_symbol(k, v.clone());
